@@ -11,6 +11,7 @@
 use crate::choices::Choices;
 use crate::runner::{Ctx, CustomReport, Failure, Outcome, Prop, RunCfg, Tier};
 use apollo_compiler::parser::{verif_hooks, SourceSpan};
+use apollo_compiler::schema::{Component, ComponentName, ComponentOrigin};
 use apollo_compiler::{name, Name, Node};
 use std::collections::BTreeMap;
 use std::fmt::Write as _;
@@ -344,7 +345,7 @@ fn fail<T>(sig: impl Into<String>, detail: impl Into<String>) -> Result<T, Fail>
 
 #[derive(Clone, Debug)]
 pub enum Op {
-    NewStr { dst: u8, text: u8 },
+    NewStr { dst: u8, text: u8, via: u8 },
     NewStatic { dst: u8, idx: u8, mac: bool },
     FromArc { dst: u8, sel: u8, fresh: bool, text: u8, how: u8 },
     CloneName { sel: u8, dst: u8, via_from: bool },
@@ -364,6 +365,13 @@ pub enum Op {
     PtrEq { a: u8, b: u8 },
     SameLoc { sel: u8, dst: u8, n: u8 },
     ProbeNodes { a: u8, b: u8 },
+    /// further read-only / temporary-clone API of a name: 0 to_component, 1 serde round trip,
+    /// 2 Borrow/AsRef/Deref + hash agreement, 3 Display/Debug, 4 comparisons with str, 5 From<&Name>/len
+    NameMisc { sel: u8, which: u8 },
+    /// 0 to_component / From<Node>, 1 Borrow/AsRef hash agreement, 2 Debug/Display, 3 String::from(Node<str>)
+    NodeMisc { sel: u8, which: u8 },
+    /// constructors given a text that is not a GraphQL name: must fail and keep nothing alive
+    BadName { text: u8, how: u8 },
     // only meaningful in a thread-local state (operands in the shared parent state)
     CloneSharedName { sel: u8, dst: u8 },
     CloneSharedNode { sel: u8, dst: u8 },
@@ -393,6 +401,9 @@ impl Op {
             Op::PtrEq { .. } => "ptr_eq",
             Op::SameLoc { .. } => "same_location",
             Op::ProbeNodes { .. } => "probe_nodes",
+            Op::NameMisc { .. } => "name_misc",
+            Op::NodeMisc { .. } => "node_misc",
+            Op::BadName { .. } => "bad_name",
             Op::CloneSharedName { .. } => "clone_shared_name",
             Op::CloneSharedNode { .. } => "clone_shared_node",
             Op::ReadShared { .. } => "read_shared",
@@ -410,8 +421,8 @@ fn decode_loc(c: &mut Choices) -> Option<(bool, u8, u8)> {
 
 /// Total decoder; the all-zero stream gives `Name::new(POOL[0])` into slot 0.
 pub fn decode_op(c: &mut Choices) -> Op {
-    match c.weighted(&[10, 6, 10, 16, 11, 8, 6, 3, 5, 4, 6, 8, 4, 8, 6, 8, 4, 3, 3, 3]) {
-        0 => Op::NewStr { dst: c.byte(), text: c.byte() },
+    match c.weighted(&[10, 6, 10, 16, 11, 8, 6, 3, 5, 4, 6, 8, 4, 8, 6, 8, 4, 3, 3, 3, 7, 4, 3]) {
+        0 => Op::NewStr { dst: c.byte(), text: c.byte(), via: c.byte() },
         1 => Op::NewStatic { dst: c.byte(), idx: c.byte(), mac: c.bool(64) },
         2 => Op::FromArc { dst: c.byte(), sel: c.byte(), fresh: c.bool(100), text: c.byte(), how: c.byte() },
         3 => Op::CloneName { sel: c.byte(), dst: c.byte(), via_from: c.bool(64) },
@@ -430,7 +441,10 @@ pub fn decode_op(c: &mut Choices) -> Op {
         16 => Op::GetMut { sel: c.byte(), n: c.byte() },
         17 => Op::PtrEq { a: c.byte(), b: c.byte() },
         18 => Op::SameLoc { sel: c.byte(), dst: c.byte(), n: c.byte() },
-        _ => Op::ProbeNodes { a: c.byte(), b: c.byte() },
+        19 => Op::ProbeNodes { a: c.byte(), b: c.byte() },
+        20 => Op::NameMisc { sel: c.byte(), which: c.byte() },
+        21 => Op::NodeMisc { sel: c.byte(), which: c.byte() },
+        _ => Op::BadName { text: c.byte(), how: c.byte() },
     }
 }
 
@@ -448,6 +462,16 @@ fn decode_thread_op(c: &mut Choices) -> Op {
 #[inline]
 fn idx(b: u8, n: usize) -> usize {
     (b as usize * n) >> 8
+}
+
+/// GraphQL Name syntax (October 2021, 2.1.9), written from the grammar: /[_A-Za-z][_0-9A-Za-z]*/
+fn refmodel_is_name(s: &str) -> bool {
+    let mut it = s.bytes();
+    match it.next() {
+        Some(b) if b == b'_' || b.is_ascii_alphabetic() => {}
+        _ => return false,
+    }
+    it.all(|b| b == b'_' || b.is_ascii_alphanumeric())
 }
 
 fn hash_of<T: Hash + ?Sized>(t: &T) -> u64 {
@@ -475,6 +499,9 @@ pub struct State<'p> {
     pub nontrivial: bool,
     pub steps: usize,
     pub effective: usize,
+    pub moved_unique: usize,
+    /// kinds of operation that took effect at least once (histogram)
+    pub kinds: std::collections::BTreeSet<&'static str>,
     pub trace: Option<String>,
     last_kind: &'static str,
 }
@@ -495,6 +522,8 @@ impl<'p> State<'p> {
             nontrivial: false,
             steps: 0,
             effective: 0,
+            moved_unique: 0,
+            kinds: Default::default(),
             trace: if trace { Some(String::new()) } else { None },
             last_kind: "start",
         }
@@ -610,7 +639,11 @@ impl<'p> State<'p> {
     pub fn step(&mut self, op: &Op) -> Result<(), Fail> {
         self.steps += 1;
         self.last_kind = op.kind();
+        let before = self.effective;
         let r = self.apply(op);
+        if self.effective > before {
+            self.kinds.insert(op.kind());
+        }
         if let Err((sig, detail)) = r {
             return Err((sig, format!("{} (step {} of {})", detail, self.steps, self.tag_or_main())));
         }
@@ -627,12 +660,18 @@ impl<'p> State<'p> {
 
     fn apply(&mut self, op: &Op) -> Result<(), Fail> {
         match *op {
-            Op::NewStr { dst, text } => {
+            Op::NewStr { dst, text, via } => {
                 let dst = idx(dst, NSLOTS);
                 let text = POOL[idx(text, POOL.len())];
                 self.drop_name_slot(dst);
                 let owned = String::from(text);
-                let r = Name::new(&owned);
+                // the borrowed string is gone before the name is first read
+                let r = match idx(via, 5) {
+                    0 | 1 => Name::new(&owned),
+                    2 => Name::try_from(owned.as_str()),
+                    3 => Name::try_from(&owned),
+                    _ => Name::try_from(owned.clone()),
+                };
                 drop(owned);
                 let n = match r {
                     Ok(n) => n,
@@ -894,8 +933,9 @@ impl<'p> State<'p> {
                 let unique = self.allocs[ai].refs == 1 && !self.allocs[ai].ext;
                 self.log(|| format!("d{}.make_mut().n = {}   [{}]", s, n, if unique { "unique: in place" } else { "shared: copy" }));
                 if unique {
+                    // (whether the value stayed at its address is not part of the property; counted only)
                     if before != after {
-                        return fail("C30|make_mut|copied-unique", "make_mut on a uniquely owned node moved the value");
+                        self.moved_unique += 1;
                     }
                     self.allocs[ai].val = Val::P(n as u64);
                 } else {
@@ -1006,6 +1046,207 @@ impl<'p> State<'p> {
                     return fail("C30|node-hash", format!("equal node values hash differently (locations {:?} / {:?})", ma.loc, mb.loc));
                 }
                 self.log(|| format!("probe eq/hash d{} d{}", a, b));
+                self.effective += 1;
+            }
+            Op::NameMisc { sel, which } => {
+                let Some(s) = Self::pick(&self.names, sel) else { return Ok(()) };
+                let which = idx(which, 6);
+                let (n, m) = self.names[s].as_ref().unwrap();
+                let own = match m.canary {
+                    Some(CanRef::Own(i)) => Some((&self.canaries[i].arc, 1 + self.canaries[i].names + self.canaries[i].arcs)),
+                    _ => None,
+                };
+                // a temporary copy must show as exactly one more strong reference while it lives
+                let count_with_temp = |what: &str| -> Result<(), Fail> {
+                    if let Some((arc, base)) = own {
+                        let got = Arc::strong_count(arc);
+                        if got != base + 1 {
+                            return fail(format!("C30|strong-count|during-{}", what), format!("{:?}: Arc::strong_count = {} while a temporary copy made by {} is alive, expected {}", m.text, got, what, base + 1));
+                        }
+                    }
+                    Ok(())
+                };
+                match which {
+                    0 => {
+                        let c = if s % 2 == 0 { n.to_component(ComponentOrigin::Definition) } else { ComponentName::from(n) };
+                        check_name(&c.name, m, &format!("n{}.to_component().name", s), "to_component")?;
+                        count_with_temp("to_component")?;
+                        if c != *n || hash_of(&c) != hash_of(n) || c.as_str() != m.text {
+                            return fail("C30|component-name|eq-hash", format!("ComponentName of {:?} does not compare / hash like the name", m.text));
+                        }
+                        let c2 = c.clone();
+                        drop(c);
+                        check_name(&c2.name, m, &format!("n{}.to_component().clone().name", s), "to_component")?;
+                        count_with_temp("to_component")?;
+                        drop(c2);
+                    }
+                    1 => {
+                        let js = match serde_json::to_string(n) {
+                            Ok(j) => j,
+                            Err(e) => return fail("C30|serde|serialize-error", format!("serializing {:?}: {}", m.text, e)),
+                        };
+                        let want = serde_json::to_string(&m.text).unwrap_or_default();
+                        if js != want {
+                            return fail("C30|serde|serialize-text", format!("name {:?} serializes as {} (a string would be {})", m.text, js, want));
+                        }
+                        let back: Result<Name, _> = serde_json::from_str(&js);
+                        let valid = refmodel_is_name(&m.text);
+                        match back {
+                            Ok(b) => {
+                                if !valid {
+                                    return fail("C30|serde|accepts-invalid-name", format!("deserializing {} gives a Name although {:?} is not a GraphQL name", js, m.text));
+                                }
+                                if b.as_str() != m.text || b.location().is_some() {
+                                    return fail("C30|serde|deserialize-text", format!("deserializing {} gives {:?} with location {:?}", js, b.as_str(), b.location()));
+                                }
+                                if let Some(a) = b.to_cloned_arc() {
+                                    // a fresh string: this handle and the name
+                                    if Arc::strong_count(&a) != 2 {
+                                        return fail("C30|serde|deserialize-count", format!("deserialized name {:?}: backing Arc has strong count {}, expected 2", m.text, Arc::strong_count(&a)));
+                                    }
+                                }
+                            }
+                            Err(e) => {
+                                if valid {
+                                    return fail("C30|serde|rejects-valid-name", format!("deserializing {} fails: {}", js, e));
+                                }
+                            }
+                        }
+                    }
+                    2 => {
+                        let b: &str = std::borrow::Borrow::borrow(n);
+                        let a: &str = n.as_ref();
+                        let d: &str = n;
+                        if b != m.text || a != m.text || d != m.text {
+                            return fail("C30|name-borrow|text", format!("Borrow / AsRef / Deref of {:?} read {:?} / {:?} / {:?}", m.text, b, a, d));
+                        }
+                        // `Borrow<str>` requires Hash (and Eq, Ord) to agree with str's
+                        if hash_of(n) != hash_of(m.text.as_str()) {
+                            return fail("C30|name-borrow|hash", format!("name {:?} (location {:?}) does not hash like its str although it implements Borrow<str>", m.text, m.loc));
+                        }
+                        let mut set: std::collections::BTreeSet<Name> = std::collections::BTreeSet::new();
+                        set.insert(n.clone());
+                        count_with_temp("clone-into-set")?;
+                        if !set.contains(m.text.as_str()) {
+                            return fail("C30|name-borrow|ord-lookup", format!("BTreeSet<Name> lookup by str does not find {:?}", m.text));
+                        }
+                    }
+                    3 => {
+                        let (d, g) = (format!("{}", n), format!("{:?}", n));
+                        if d != m.text || g != format!("{:?}", m.text) {
+                            return fail("C30|name-fmt", format!("Display / Debug of {:?} print {:?} / {:?}", m.text, d, g));
+                        }
+                    }
+                    4 => {
+                        let other = POOL[idx(sel.wrapping_mul(13), POOL.len())];
+                        let eq = m.text == other;
+                        if (*n == *other) != eq || (*n == other) != eq || (PartialOrd::<str>::partial_cmp(n, other) != Some(m.text.as_str().cmp(other))) || (PartialOrd::<&str>::partial_cmp(n, &other) != Some(m.text.as_str().cmp(other))) {
+                            return fail("C30|name-vs-str", format!("comparing name {:?} with str {:?}: == {} / cmp {:?}", m.text, other, *n == *other, PartialOrd::<str>::partial_cmp(n, other)));
+                        }
+                    }
+                    _ => {
+                        let c = Name::from(n);
+                        count_with_temp("From<&Name>")?;
+                        if c.len() != m.text.len() || n.len() != m.text.len() {
+                            return fail("C30|name-len", format!("len of {:?} is {}", m.text, n.len()));
+                        }
+                        check_name(&c, m, &format!("Name::from(&n{})", s), "from-ref")?;
+                    }
+                }
+                self.log(|| format!("n{}: {}", s, ["to_component", "serde round trip", "Borrow/AsRef/Deref + hash", "Display/Debug", "compare with str", "From<&Name>, len"][which]));
+                self.effective += 1;
+            }
+            Op::NodeMisc { sel, which } => {
+                let Some(s) = Self::pick(&self.nodes, sel) else { return Ok(()) };
+                let which = idx(which, 4);
+                let (node, ai) = self.nodes[s].as_ref().unwrap();
+                let a = &self.allocs[*ai];
+                match which {
+                    0 => match node {
+                        NodeV::P(x) => {
+                            let c = x.to_component(ComponentOrigin::Definition);
+                            let c2: Component<Payload> = Component::from(x.clone());
+                            if !c.node.ptr_eq(x) || !c2.node.ptr_eq(x) || loc_of(c.location()) != a.loc || c != c2 || hash_of(&c) != hash_of(x) {
+                                return fail("C30|component-node", "Component made from a node is not the same allocation / location / value");
+                            }
+                            // three handles more: the node is certainly shared now
+                            let mut c3 = c2.clone();
+                            if c3.get_mut().is_some() {
+                                return fail("C30|get_mut|some-for-shared", "get_mut returned Some while Components share the node");
+                            }
+                        }
+                        NodeV::S(x) => {
+                            let c = x.to_component(ComponentOrigin::Definition);
+                            if !c.node.ptr_eq(x) || loc_of(c.location()) != a.loc || c.as_str() != x.as_str() {
+                                return fail("C30|component-node", "Component made from a str node is not the same allocation / location / value");
+                            }
+                        }
+                    },
+                    1 => {
+                        let ok = match node {
+                            NodeV::P(x) => {
+                                let b: &Payload = std::borrow::Borrow::borrow(x);
+                                let r: &Payload = x.as_ref();
+                                std::ptr::eq(b, &**x) && std::ptr::eq(r, &**x) && hash_of(x) == hash_of(b)
+                            }
+                            NodeV::S(x) => {
+                                let b: &str = std::borrow::Borrow::borrow(x);
+                                let r: &str = x.as_ref();
+                                b == x.as_str() && r == x.as_str() && hash_of(x) == hash_of(b)
+                            }
+                        };
+                        if !ok {
+                            return fail("C30|node-borrow", format!("Borrow / AsRef of a node (location {:?}) do not read / hash like its value", a.loc));
+                        }
+                    }
+                    2 => {
+                        if let (NodeV::S(x), Val::S(t)) = (node, &a.val) {
+                            // the exact Debug format is not part of the property: the text must be in it
+                            let want = format!("{:?}", t);
+                            let (d, g) = (format!("{}", x), format!("{:?}", x));
+                            if d != *t || !g.ends_with(&want) {
+                                return fail("C30|node-fmt", format!("Display / Debug of a str node print {:?} / {:?}, expected {:?} / ..{:?}", d, g, t, want));
+                            }
+                        }
+                    }
+                    _ => {
+                        if let (NodeV::S(x), Val::S(t)) = (node, &a.val) {
+                            let s1 = String::from(x);
+                            let s2 = String::from(x.clone());
+                            let back = Node::<str>::from(s1.clone());
+                            if s1 != *t || s2 != *t || back.as_str() != t || back.location().is_some() || back.ptr_eq(x) {
+                                return fail("C30|node-str-conversions", format!("String::from(node) = {:?} / {:?}, expected {:?}", s1, s2, t));
+                            }
+                        }
+                    }
+                }
+                self.log(|| format!("d{}: {}", s, ["to_component / Component::from", "Borrow/AsRef + hash", "Display/Debug", "String conversions"][which]));
+                self.effective += 1;
+            }
+            Op::BadName { text, how } => {
+                let t = ODD[idx(text, ODD.len())];
+                let how = idx(how, 5);
+                let err = match how {
+                    0 => Name::new(t).err(),
+                    1 => Name::new_static(t).err(),
+                    2 => Name::try_from(String::from(t)).err(),
+                    3 => serde_json::from_str::<Name>(&serde_json::to_string(t).unwrap_or_default()).err().map(|_| apollo_compiler::InvalidNameError { name: t.to_string(), location: None }),
+                    _ => {
+                        // the Arc handle given to the failing constructor must be released again
+                        self.canaries.push(Canary { arc: Arc::from(t), names: 0, arcs: 0, cloned: false });
+                        let h = self.canaries.last().unwrap().arc.clone();
+                        Name::try_from(h).err()
+                    }
+                };
+                match err {
+                    None => return fail("C30|bad-name|accepted", format!("constructor {} accepts {:?}, which is not a GraphQL name", how, t)),
+                    Some(e) => {
+                        if e.name != t || e.location.is_some() {
+                            return fail("C30|bad-name|error-value", format!("constructor {} given {:?} reports name {:?}, location {:?}", how, t, e.name, e.location));
+                        }
+                    }
+                }
+                self.log(|| format!("{}({:?}) is rejected", ["Name::new", "Name::new_static", "Name::try_from(String)", "deserialize", "Name::try_from(Arc<str>)"][how], t));
                 self.effective += 1;
             }
             Op::CloneSharedName { sel, dst } => {
@@ -1125,6 +1366,32 @@ impl<'p> State<'p> {
         Ok(())
     }
 
+    /// Worker thread, end of its last repetition: every value that is a copy of something in the shared
+    /// pool (clones of shared heap names, static names, clones of shared nodes) is moved out, to be
+    /// dropped by the main thread after the join; everything else is dropped here.
+    fn finish_handover(&mut self) -> Result<(Vec<Name>, Vec<NodeV>), Fail> {
+        let mut names = vec![];
+        let mut nodes = vec![];
+        for i in 0..NSLOTS {
+            let keep = matches!(&self.names[i], Some((_, m)) if !matches!(m.canary, Some(CanRef::Own(_))));
+            if keep {
+                let (n, _) = self.names[i].take().unwrap();
+                names.push(n);
+            }
+            let keep = matches!(&self.nodes[i], Some((_, ai)) if self.allocs[*ai].ext);
+            if keep {
+                let (n, ai) = self.nodes[i].take().unwrap();
+                self.allocs[ai].refs -= 1;
+                nodes.push(n);
+            }
+        }
+        if !names.is_empty() || !nodes.is_empty() {
+            self.log(|| format!("hands {} name(s) and {} node handle(s) over to the main thread", names.len(), nodes.len()));
+        }
+        self.finish()?;
+        Ok((names, nodes))
+    }
+
     /// Drop every slot; all counts must return to 1.
     pub fn finish(&mut self) -> Result<(), Fail> {
         self.last_kind = "final-drop";
@@ -1221,6 +1488,9 @@ pub struct RunOut {
     pub steps: usize,
     pub effective: usize,
     pub threads: usize,
+    pub kinds: std::collections::BTreeSet<&'static str>,
+    pub thread_kinds: std::collections::BTreeSet<&'static str>,
+    pub moved_unique: usize,
     pub fail: Option<Fail>,
 }
 
@@ -1234,7 +1504,7 @@ fn pick_files(c: &mut Choices) -> Result<[Arc<LocFile>; 2], Fail> {
 /// Single-threaded history.
 pub fn run_single(bytes: &[u8], trace: bool) -> RunOut {
     let mut c = Choices::new(bytes);
-    let mut out = RunOut { trace: String::new(), nontrivial: false, steps: 0, effective: 0, threads: 0, fail: None };
+    let mut out = RunOut { trace: String::new(), nontrivial: false, steps: 0, effective: 0, threads: 0, kinds: Default::default(), thread_kinds: Default::default(), moved_unique: 0, fail: None };
     let files = match pick_files(&mut c) {
         Ok(f) => f,
         Err(e) => {
@@ -1258,6 +1528,8 @@ pub fn run_single(bytes: &[u8], trace: bool) -> RunOut {
     out.nontrivial = st.nontrivial;
     out.steps = st.steps;
     out.effective = st.effective;
+    out.kinds = std::mem::take(&mut st.kinds);
+    out.moved_unique = st.moved_unique;
     out.trace = st.trace.take().unwrap_or_default();
     out.fail = r.err();
     out
@@ -1266,7 +1538,7 @@ pub fn run_single(bytes: &[u8], trace: bool) -> RunOut {
 /// Sequential prefix, then 2-4 real threads working on clones of the shared slots, then a sequential suffix.
 pub fn run_threaded(bytes: &[u8], trace: bool, rep_cap: usize) -> RunOut {
     let mut c = Choices::new(bytes);
-    let mut out = RunOut { trace: String::new(), nontrivial: false, steps: 0, effective: 0, threads: 0, fail: None };
+    let mut out = RunOut { trace: String::new(), nontrivial: false, steps: 0, effective: 0, threads: 0, kinds: Default::default(), thread_kinds: Default::default(), moved_unique: 0, fail: None };
     let files = match pick_files(&mut c) {
         Ok(f) => f,
         Err(e) => {
@@ -1296,22 +1568,28 @@ pub fn run_threaded(bytes: &[u8], trace: bool, rep_cap: usize) -> RunOut {
         let n = c.range(0, 12);
         (0..n).map(|_| decode_op(&mut c)).collect()
     };
+    // the last repetition of every worker hands its copies of shared values over to the main thread
+    let handover = c.coin();
     out.threads = k;
     if r.is_ok() {
         let barrier = Barrier::new(k);
         let shared = &st;
-        let results: Vec<(String, Result<(bool, usize), Fail>)> = std::thread::scope(|s| {
+        type Handed = (Vec<Name>, Vec<NodeV>);
+        type Kinds = std::collections::BTreeSet<&'static str>;
+        let results: Vec<(String, Result<(bool, usize, Handed, Kinds), Fail>)> = std::thread::scope(|s| {
             let handles: Vec<_> = tops
                 .iter()
                 .enumerate()
                 .map(|(ti, ops)| {
                     let files = files.clone();
                     let barrier = &barrier;
-                    s.spawn(move || -> (String, Result<(bool, usize), Fail>) {
+                    s.spawn(move || -> (String, Result<(bool, usize, Handed, Kinds), Fail>) {
                         barrier.wait();
                         let mut tr = String::new();
                         let mut nt = false;
                         let mut eff = 0;
+                        let mut handed: Handed = (vec![], vec![]);
+                        let mut kinds: Kinds = Default::default();
                         for rep in 0..reps {
                             // the trace of the first repetition is kept, and the one of a failing repetition
                             let mut l = State::new(files.clone(), Some(shared), &format!("  T{}: ", ti), trace);
@@ -1323,7 +1601,11 @@ pub fn run_threaded(bytes: &[u8], trace: bool, rep_cap: usize) -> RunOut {
                                 }
                             }
                             if r.is_ok() {
-                                r = l.finish();
+                                r = if handover && rep + 1 == reps {
+                                    l.finish_handover().map(|h| handed = h)
+                                } else {
+                                    l.finish()
+                                };
                             }
                             if let Err(e) = r {
                                 let mut t = l.trace.take().unwrap_or_default();
@@ -1332,11 +1614,15 @@ pub fn run_threaded(bytes: &[u8], trace: bool, rep_cap: usize) -> RunOut {
                             }
                             nt |= l.nontrivial;
                             eff += l.effective;
+                            kinds.extend(l.kinds.iter().copied());
                             if rep == 0 {
                                 tr = l.trace.take().unwrap_or_default();
                             }
                         }
-                        (tr, Ok((nt, eff)))
+                        if handover && reps > 1 {
+                            tr.push_str(&format!("  T{}: (the last repetition hands its copies of shared values over to the main thread)\n", ti));
+                        }
+                        (tr, Ok((nt, eff, handed, kinds)))
                     })
                 })
                 .collect();
@@ -1355,14 +1641,21 @@ pub fn run_threaded(bytes: &[u8], trace: bool, rep_cap: usize) -> RunOut {
             let t = st.trace.as_mut().unwrap();
             let _ = writeln!(t, "-- {} threads, each repeating its operations {} time(s) on a fresh local pool", k, reps);
         }
+        let mut all_handed: Vec<Handed> = vec![];
+        let mut thread_kinds: Kinds = Default::default();
         for (tr, res) in results {
             if let Some(t) = st.trace.as_mut() {
                 t.push_str(&tr);
             }
             match res {
-                Ok((nt, eff)) => {
+                Ok((nt, eff, handed, kinds)) => {
                     st.nontrivial |= nt;
                     st.effective += eff;
+                    thread_kinds.extend(kinds);
+                    if !handed.0.is_empty() || !handed.1.is_empty() {
+                        thread_kinds.insert("handover");
+                    }
+                    all_handed.push(handed);
                 }
                 Err(e) => {
                     if r.is_ok() {
@@ -1370,6 +1663,23 @@ pub fn run_threaded(bytes: &[u8], trace: bool, rep_cap: usize) -> RunOut {
                     }
                 }
             }
+        }
+        // values made by the workers are read once more and dropped here, on another thread than the
+        // one that made them (also when a worker failed: nothing may outlive the pool)
+        let n_handed: usize = all_handed.iter().map(|h| h.0.len() + h.1.len()).sum();
+        for (names, nodes) in all_handed {
+            for n in names {
+                let _ = n.as_str().len();
+                drop(n);
+            }
+            for n in nodes {
+                let _ = n.location();
+                drop(n);
+            }
+        }
+        out.thread_kinds = thread_kinds;
+        if trace && n_handed > 0 {
+            let _ = writeln!(st.trace.as_mut().unwrap(), "-- main drops the {} handed-over value(s)", n_handed);
         }
         if r.is_ok() {
             // all workers are gone: the counts must be the ones from before they started
@@ -1394,6 +1704,8 @@ pub fn run_threaded(bytes: &[u8], trace: bool, rep_cap: usize) -> RunOut {
     out.nontrivial = st.nontrivial;
     out.steps = st.steps;
     out.effective = st.effective;
+    out.kinds = std::mem::take(&mut st.kinds);
+    out.moved_unique = st.moved_unique;
     out.trace = st.trace.take().unwrap_or_default();
     out.fail = r.err();
     out
@@ -1408,6 +1720,15 @@ fn classify(ctx: &mut Ctx, o: &RunOut) {
         (k, false) => format!("threads-{}/other", k),
     });
     ctx.sub_evals += o.effective as u64;
+    for k in &o.kinds {
+        ctx.class(format!("op/{}", k));
+    }
+    for k in &o.thread_kinds {
+        ctx.class(format!("thread-op/{}", k));
+    }
+    if o.moved_unique > 0 {
+        ctx.class("make_mut-moved-a-unique-value");
+    }
 }
 
 /// Allocation delta (blocks, bytes) of one untraced run of the history on this thread.
